@@ -509,6 +509,38 @@ func (x *Unit) spCall(st *State, e *ast.CallExpr, c *specCtx) Val {
 	case "doneAt":
 		ctx := arg(0)
 		return Val{x.uf("doneAt", SInt, ctx.T), intT}
+	case "result_of":
+		ft := x.srcOf(e.Args[0])
+		idx := 0
+		if len(e.Args) > 1 {
+			if bl, ok := e.Args[1].(*ast.BasicLit); ok {
+				idx, _ = strconv.Atoi(bl.Value)
+			}
+		}
+		k := fmt.Sprintf("res:%s:%d", ft, idx)
+		if v, ok := st.ghost[k]; ok {
+			return v
+		}
+		if v, ok := x.entry.ghost[k]; ok {
+			return v
+		}
+		if x.letWitness > 0 {
+			// at a call site the callee's internal call result is an (existential) witness
+			return Val{x.fresh("witness", SInt), intT}
+		}
+		x.specErr(e, "no call of %s recorded on this path", ft)
+		return Val{x.fresh("bad", SInt), nil}
+	case "let_of":
+		ft := x.srcOf(e.Args[0])
+		k := fmt.Sprintf("let:%s:%s", ft, x.srcOf(e.Args[1]))
+		if v, ok := st.ghost[k]; ok {
+			return v
+		}
+		if v, ok := x.entry.ghost[k]; ok {
+			return v
+		}
+		x.specErr(e, "no contract let %s recorded", k)
+		return Val{x.fresh("bad", SInt), nil}
 	case "once":
 		lv := x.specLV(st, e.Args[0], c)
 		if lv == nil {
